@@ -564,3 +564,27 @@ def rule_peekable(ctx, sig, body, arg):
         ctx.note('R-peekable', m.group(0), f'chars_peekable(&{m.group(1)})')
         return f'chars_peekable(&{m.group(1)})'
     return sig, p.sub(r, body)
+
+
+def rule_nameiter(ctx, sig, body, arg):
+    """@rule nameiter <occurrence> <name>: `for PAT in EXPR {` -> `for PAT in <name>: EXPR {`.
+    Verus syntax that names the ghost iterator of a for loop so that invariants can mention its progress;
+    it has no executable effect."""
+    parts = arg.split()
+    occ, name = int(parts[0]), parts[1]
+    toks = tokenize(body)
+    ct = code_tokens(toks)
+    fors = [i for i, t in enumerate(ct) if t.kind == 'ident' and t.text == 'for' and ct[i - 1].text in (';', '{', '}')]
+    if occ < 1 or occ > len(fors):
+        raise RuleError(f'for-loop {occ} not found')
+    i = fors[occ - 1]
+    j = i + 1
+    depth = 0
+    while not (ct[j].kind == 'ident' and ct[j].text == 'in' and depth == 0):
+        if ct[j].text in '([':
+            depth += 1
+        elif ct[j].text in ')]':
+            depth -= 1
+        j += 1
+    ctx.note('R-nameiter', 'for .. in', f'for .. in {name}:')
+    return sig, body[:ct[j].end] + f' {name}:' + body[ct[j].end:]
